@@ -56,6 +56,15 @@ func (tr *Trans) ret(fr *Frame, x *ssa.Return) {
 			sc.vars[res.At(i).Name()] = te
 		}
 	}
+	if tr.name == "init" {
+		for i, cl := range tr.eng.globalInv {
+			te, err := sc.elab(cl.E)
+			if err != nil {
+				continue
+			}
+			tr.cur.assert(te.E, tr.ob("globalinv", fmt.Sprint(i), x.Pos(), cl.Src, cl.Tags))
+		}
+	}
 	if tr.contract != nil {
 		for i, cl := range tr.contract.Ensures {
 			te, err := sc.elab(cl.E)
@@ -219,6 +228,8 @@ func (tr *Trans) callFunc(fr *Frame, res ssa.Value, fn *ssa.Function, binds []*V
 	key := tr.eng.fnKey(fn)
 	ct := tr.eng.contractFor(fn)
 	inPkg := tr.eng.inTarget(fn)
+	tr.curBinds = binds
+	defer func() { tr.curBinds = nil }()
 	if inPkg && fn.Signature.Recv() != nil && len(args) > 0 {
 		if _, ok := fn.Signature.Recv().Type().Underlying().(*types.Pointer); ok {
 			tr.assertSafe("(not (= "+tr.expr(args[0])+" 0))", "nil-receiver", pos, "method "+key+" called on nil receiver")
@@ -303,6 +314,31 @@ func (tr *Trans) havocPointee(a *Val, pos token.Pos) {
 		return
 	}
 	if a.K == VExpr && a.T != nil {
+		switch u := a.T.Underlying().(type) {
+		case *types.Slice:
+			comp, srt := tr.eng.sorts.elemComp(u.Elem())
+			ref := "(s_arr " + a.E + ")"
+			tr.checkWrite(comp, ref, pos, comp)
+			arr := tr.freshConst("hvarr", "(Array Int "+tr.sortOf(u.Elem()).Sort+")")
+			tr.upd(comp, srt, ref, arr)
+			return
+		case *types.Map:
+			mi := tr.eng.sorts.mapInfo(a.T)
+			dc, ds := mi.domComp()
+			vc, vs := mi.valComp()
+			lc, ls := mi.lenComp()
+			tr.checkWrite(dc, a.E, pos, "map "+mi.Name)
+			tr.eng.recordWrite(tr.fn, vc)
+			tr.eng.recordWrite(tr.fn, lc)
+			d := tr.freshConst("hvdom", "(Array "+mi.KSort+" Bool)")
+			vv := tr.freshConst("hvval", "(Array "+mi.KSort+" "+mi.VSort+")")
+			ln := tr.freshConst("hvlen", "Int")
+			tr.cur.assume("(>= " + ln + " 0)")
+			tr.upd(dc, ds, a.E, d)
+			tr.upd(vc, vs, a.E, vv)
+			tr.upd(lc, ls, a.E, ln)
+			return
+		}
 		if pt, ok := a.T.Underlying().(*types.Pointer); ok {
 			if named, ok := pt.Elem().(*types.Named); ok && opaqueExternal[tr.eng.sorts.typeName(named)] {
 				return
@@ -369,6 +405,27 @@ func (tr *Trans) callScope(ct *Contract, fn *ssa.Function, args []*Val) *Scope {
 		sc.vars[names[i]] = TExpr{E: tr.expr(a), Sort: tr.sortOf(t).Sort, GoT: t}
 	}
 	// free variables of contracted closures: contents of the captured cells
+	if fn != nil && len(fn.FreeVars) > 0 {
+		for i, fv := range fn.FreeVars {
+			if i >= len(tr.curBinds) || tr.curBinds[i] == nil {
+				continue
+			}
+			b := tr.curBinds[i]
+			et := fv.Type().(*types.Pointer).Elem()
+			srt := tr.sortOf(et).Sort
+			switch {
+			case b.K == VAddr && b.Addr.K == RCell && len(b.Addr.Path) == 0:
+				sc.vars[fv.Name()] = TExpr{E: cur(b.Addr.Var), Sort: srt, GoT: et}
+			case b.K == VExpr:
+				if _, isStruct := et.Underlying().(*types.Struct); isStruct && strings.HasPrefix(srt, "S_") {
+					sc.vars[fv.Name()] = TExpr{E: b.E, Sort: "Int", GoT: fv.Type()}
+				} else {
+					comp, csrt := tr.eng.sorts.cellComp(et)
+					sc.vars[fv.Name()] = TExpr{E: b.E, Sort: srt, GoT: et, Cell: &CellRef{Comp: comp, Sort: csrt, Ref: b.E}}
+				}
+			}
+		}
+	}
 	return sc
 }
 
@@ -390,27 +447,26 @@ func (tr *Trans) applyRequires(ct *Contract, fn *ssa.Function, args []*Val, pos 
 		} else {
 			tr.cur.assume(te.E)
 		}
+		markOld(sc, cl.E)
 	}
 }
 
 func (tr *Trans) applyContract(ct *Contract, fn *ssa.Function, args []*Val, sig *types.Signature, pos token.Pos, key string) []*Val {
 	tr.applyRequires(ct, fn, args, pos, key)
 	sc := tr.callScope(ct, fn, args)
-	// pre-state capture for old(...)
-	oldMap := map[*NOld]TExpr{}
-	for _, cl := range ct.Ensures {
-		walk(cl.E, func(n Node) {
-			if o, ok := n.(*NOld); ok {
-				te, err := sc.elab(o.X)
-				if err != nil {
-					tr.eng.fatal("%s:%d: old() in %q: %v", ct.File, cl.Line, cl.Src, err)
-					return
-				}
-				c := tr.freshConst("old", te.Sort)
-				tr.cur.assume(fmt.Sprintf("(= %s %s)", c, te.E))
-				oldMap[o] = TExpr{E: c, Sort: te.Sort, GoT: te.GoT}
-			}
-		})
+	blk, at := tr.cur, len(tr.cur.Stmts)
+	snaps := map[string]string{}
+	var snapOrder []string
+	snapFn := func(comp, sort string) string {
+		if c, ok := snaps[comp]; ok {
+			return c
+		}
+		v := tr.il.mvar(comp, sort)
+		v.Comp = comp
+		c := tr.freshConst("snap_"+comp, sort)
+		snaps[comp] = c
+		snapOrder = append(snapOrder, comp)
+		return c
 	}
 	allocBefore := tr.freshConst("allocpre", "Int")
 	tr.cur.assume(fmt.Sprintf("(= %s %s)", allocBefore, cur(tr.alloc)))
@@ -423,7 +479,12 @@ func (tr *Trans) applyContract(ct *Contract, fn *ssa.Function, args []*Val, sig 
 	// results
 	results := tr.havocResults(key, sig)
 	post := sc.child()
-	post.oldHook = func(n *NOld) (TExpr, bool) { te, ok := oldMap[n]; return te, ok }
+	post.oldHook = func(at *Scope, n *NOld) (TExpr, bool) {
+		c := at.child()
+		c.oldHook = nil
+		c.heapFn = snapFn
+		return c.el(n.X), true
+	}
 	post.vars["$allocbase"] = TExpr{E: allocBefore, Sort: "Int"}
 	for i, r := range results {
 		te := TExpr{E: r.E, Sort: tr.sortOf(r.T).Sort, GoT: r.T}
@@ -448,10 +509,20 @@ func (tr *Trans) applyContract(ct *Contract, fn *ssa.Function, args []*Val, sig 
 		}
 		tr.cur.assume(te.E)
 	}
+	// splice the pre-state snapshots in front of the frame havoc
+	if len(snapOrder) > 0 {
+		var ins []Stmt
+		for _, comp := range snapOrder {
+			ins = append(ins, Stmt{K: SAssume, E: fmt.Sprintf("(= %s %s)", snaps[comp], cur(tr.il.Vars[comp]))})
+		}
+		rest := append([]Stmt{}, blk.Stmts[at:]...)
+		blk.Stmts = append(append(blk.Stmts[:at], ins...), rest...)
+	}
 	return results
 }
 
-// applyFrame havocs what the callee may modify.
+// applyFrame havocs what the callee may modify (among the objects allocated during this API call;
+// older objects are immutable by the modifies obligations every function carries).
 func (tr *Trans) applyFrame(ct *Contract, fn *ssa.Function, sc *Scope, args []*Val, pos token.Pos, allocBefore string) {
 	if ct.Opaque {
 		tr.havocAll(pos)
@@ -475,22 +546,43 @@ func (tr *Trans) applyFrame(ct *Contract, fn *ssa.Function, sc *Scope, args []*V
 		}
 		return
 	}
-	// declared frame: specific locations + coarse components; everything else allocated before the call is unchanged.
 	names := tr.paramNames(ct, fn, len(args))
-	type specific struct{ comp, ref string }
-	var specs []specific
-	coarse := map[string]bool{}
+	// pass 1: resolve every location in the pre-state
+	type loc struct {
+		comp, ref, guard string
+		ghost           bool
+	}
+	var locs []loc
+	var coarse []string
+	var pointees []int
+	snap := func(e, sort string) string {
+		c := tr.freshConst("loc", sort)
+		tr.cur.assume(fmt.Sprintf("(= %s %s)", c, e))
+		return c
+	}
 	for _, m := range ct.Modifies {
 		switch {
 		case strings.HasPrefix(m, "*"):
 			pn := strings.TrimSpace(m[1:])
 			for i, n := range names {
 				if n == pn && i < len(args) {
-					tr.havocPointee(args[i], pos)
+					pointees = append(pointees, i)
 				}
 			}
+		case strings.Contains(m, "[") && strings.HasSuffix(m, "]") && tr.eng.ghost[m[:strings.Index(m, "[")]] != "":
+			g := m[:strings.Index(m, "[")]
+			idx, err := parseExpr(m[strings.Index(m, "[")+1 : len(m)-1])
+			if err != nil {
+				tr.eng.fatal("%s: modifies %q: %v", ct.File, m, err)
+				continue
+			}
+			it, err := sc.elab(idx)
+			if err != nil {
+				tr.eng.fatal("%s: modifies %q: %v", ct.File, m, err)
+				continue
+			}
+			locs = append(locs, loc{comp: g, ref: snap(it.E, "Int"), guard: "true", ghost: true})
 		case strings.Contains(m, "."):
-			// x.f : field f of the object x (x evaluated in the pre-state)
 			i := strings.LastIndex(m, ".")
 			base, err := parseExpr(m[:i])
 			if err != nil {
@@ -502,67 +594,59 @@ func (tr *Trans) applyFrame(ct *Contract, fn *ssa.Function, sc *Scope, args []*V
 				tr.eng.fatal("%s: modifies %q: %v", ct.File, m, err)
 				continue
 			}
-			comps := tr.eng.locComps(bt, m[i+1:])
-			for _, c := range comps {
-				specs = append(specs, specific{c, refOf(bt)})
+			guard := snap(tr.derefGuard(sc, base, bt), "Bool")
+			ref := snap(refOf(bt), "Int")
+			for _, comp := range tr.eng.locComps(bt, m[i+1:]) {
+				locs = append(locs, loc{comp: comp, ref: ref, guard: guard})
 			}
 		default:
-			coarse[m] = true
+			coarse = append(coarse, m)
 		}
 	}
-	// in-package callee: havoc inferred write set, then restore the frame for pre-existing objects
-	var ws map[string]bool
-	if fn != nil && tr.eng.inTarget(fn) {
-		ws = tr.eng.writeSet(fn)
-	} else {
-		ws = map[string]bool{}
-		for c := range coarse {
-			ws[c] = true
+	// pass 2: frame checks of the caller, then havoc
+	for _, i := range pointees {
+		tr.havocPointee(args[i], pos)
+	}
+	for _, l := range locs {
+		srt := tr.eng.compSort(l.comp)
+		if l.ghost {
+			srt = tr.eng.ghost[l.comp]
 		}
-		for _, s := range specs {
-			ws[s.comp] = true
+		hv := tr.heapVar(l.comp, srt)
+		tr.eng.recordWrite(tr.fn, l.comp)
+		parts := splitSortArgs(srt)
+		fresh := tr.freshConst("mod_"+l.comp, parts[1])
+		// the caller must itself be entitled to have this location written
+		if l.guard == "true" {
+			tr.checkWrite(l.comp, l.ref, pos, "callee frame "+l.comp)
+		} else {
+			tr.checkWriteGuarded(l.comp, l.ref, l.guard, pos, "callee frame "+l.comp)
+		}
+		tr.cur.assign(hv, fmt.Sprintf("(ite %s (store %s %s %s) %s)", l.guard, cur(hv), l.ref, fresh, cur(hv)))
+	}
+	for _, m := range coarse {
+		tr.havocComp(m, pos)
+		if tr.checkMod && !tr.modCoarse[m] && !tr.modCoarse["*"] {
+			tr.cur.assert("false", tr.ob("frame", "call:"+m, pos, "callee may write component "+m+" wholesale", tr.eng.propsFor(tr.name, "frame")))
 		}
 	}
-	if ws["*"] {
-		tr.havocAll(pos)
-		return
-	}
-	for _, comp := range sortedKeys(ws) {
-		v := tr.il.Vars[comp]
-		if v == nil {
-			srt := tr.eng.compSort(comp)
-			if srt == "" {
-				continue
-			}
-			v = tr.heapVar(comp, srt)
-		}
-		if coarse[comp] || strings.HasPrefix(comp, "G_") || strings.HasPrefix(comp, "c$") {
-			tr.cur.havoc(v)
-			tr.eng.recordWrite(tr.fn, comp)
-			if tr.checkMod && !tr.modCoarse[comp] && !tr.modCoarse["*"] {
-				tr.cur.assert("false", tr.ob("modifies", "call:"+comp, pos, "callee may write component "+comp+" wholesale", tr.eng.propsFor(tr.name, "modifies")))
-			}
-			continue
-		}
-		pre := tr.freshConst("pre_"+comp, v.Sort)
-		tr.cur.assume(fmt.Sprintf("(= %s %s)", pre, cur(v)))
-		tr.cur.havoc(v)
-		tr.eng.recordWrite(tr.fn, comp)
-		q := tr.freshName("r")
-		var excl []string
-		for _, s := range specs {
-			if s.comp == comp {
-				excl = append(excl, fmt.Sprintf("(not (= %s %s))", q, s.ref))
-				// the caller must itself be allowed to have this location written
-				tr.checkWrite(comp, s.ref, pos, "callee frame "+comp)
+}
+
+// derefGuard: the location base.f exists only if every pointer dereferenced on the way is non-nil.
+func (tr *Trans) derefGuard(sc *Scope, base Node, bt TExpr) string {
+	var gs []string
+	var rec func(n Node)
+	rec = func(n Node) {
+		if f, ok := n.(*NField); ok {
+			rec(f.X)
+			if te, err := sc.elab(f.X); err == nil && te.Sort == "Int" {
+				gs = append(gs, "(not (= "+te.E+" 0))")
 			}
 		}
-		guard := fmt.Sprintf("(<= %s %s)", q, allocBefore)
-		if len(excl) > 0 {
-			guard = "(and " + guard + " " + strings.Join(excl, " ") + ")"
-		}
-		tr.cur.assume(fmt.Sprintf("(forall ((%s Int)) (! (=> %s (= (select %s %s) (select %s %s))) :pattern ((select %s %s))))", q, guard, cur(v), q, pre, q, cur(v), q))
 	}
+	rec(base)
+	gs = append(gs, "(not (= "+refOf(bt)+" 0))")
+	return "(and " + strings.Join(gs, " ") + ")"
 }
 
 func walk(n Node, f func(Node)) {
@@ -654,7 +738,21 @@ func (tr *Trans) expandIterator(fr *Frame, it *Val, yc *Val, pos token.Pos) {
 	done := tr.il.newBlock("iter.done")
 	yfn := yc.Fn
 	head.PosList = append(head.PosList, int(yfn.Pos()))
-	tr.loopInfo[head] = &loopOrigin{frame: fr, kind: "rangefunc", pos: []token.Pos{yfn.Pos()}}
+	lo := &loopOrigin{frame: fr, kind: "rangefunc", pos: []token.Pos{yfn.Pos()}}
+	tr.loopInfo[head] = lo
+	// range-over-func protocol: the synthetic jump$N cell is 0 ("ready") whenever the iterator asks for the next element
+	for i, fv := range yfn.FreeVars {
+		if strings.HasPrefix(fv.Name(), "jump$") && i < len(yc.Binds) {
+			b := yc.Binds[i]
+			if b.K == VAddr && b.Addr.K == RCell {
+				lo.jump = b.Addr.Var
+			} else if b.K == VExpr {
+				comp, srt := tr.eng.sorts.cellComp(fv.Type().(*types.Pointer).Elem())
+				lo.jumpExpr = tr.sel(comp, srt, b.E)
+				_ = srt
+			}
+		}
+	}
 	ysig := yfn.Signature
 	// yielded values
 	var ys []*Val
@@ -750,7 +848,7 @@ func (tr *Trans) builtin(fr *Frame, res ssa.Value, b *ssa.Builtin, c *ssa.CallCo
 		case *types.Map:
 			mi := tr.eng.sorts.mapInfo(c.Args[0].Type())
 			lc, ls := mi.lenComp()
-			r := tr.define(fr, res, fmt.Sprintf("(select %s %s)", cur(tr.heapVar(lc, ls)), e))
+			r := tr.define(fr, res, tr.sel(lc, ls, e))
 			tr.cur.assume("(>= " + r.E + " 0)")
 		case *types.Pointer:
 			if at, ok := u.Elem().Underlying().(*types.Array); ok {
@@ -789,10 +887,9 @@ func (tr *Trans) builtin(fr *Frame, res ssa.Value, b *ssa.Builtin, c *ssa.CallCo
 		dst := args[0]
 		if st, ok := c.Args[0].Type().Underlying().(*types.Slice); ok {
 			comp, srt := tr.eng.sorts.elemComp(st.Elem())
-			hv := tr.heapVar(comp, srt)
 			tr.checkWrite(comp, "(s_arr "+tr.expr(dst)+")", pos, comp)
 			arr := tr.freshConst("copied", "(Array Int "+tr.sortOf(st.Elem()).Sort+")")
-			tr.cur.assign(hv, fmt.Sprintf("(store %s (s_arr %s) %s)", cur(hv), tr.expr(dst), arr))
+			tr.upd(comp, srt, "(s_arr "+tr.expr(dst)+")", arr)
 		}
 		if res != nil {
 			tr.defineHavoc(fr, res)
@@ -817,7 +914,6 @@ func (tr *Trans) appendBuiltin(fr *Frame, res ssa.Value, c *ssa.CallCommon, args
 		return
 	}
 	comp, srt := tr.eng.sorts.elemComp(st.Elem())
-	hv := tr.heapVar(comp, srt)
 	esort := tr.sortOf(st.Elem()).Sort
 	r := tr.newRef("append")
 	arr := tr.freshConst("apparr", "(Array Int "+esort+")")
@@ -829,14 +925,15 @@ func (tr *Trans) appendBuiltin(fr *Frame, res ssa.Value, c *ssa.CallCommon, args
 		e := tr.expr(args[1])
 		elen = "(s_len " + e + ")"
 		q := tr.freshName("j")
-		tr.cur.assume(fmt.Sprintf("(forall ((%s Int)) (! (=> (and (<= 0 %s) (< %s %s)) (= (select %s (+ (s_len %s) %s)) (select (select %s (s_arr %s)) %s))) :pattern ((select (select %s (s_arr %s)) %s))))",
-			q, q, q, elen, arr, s, q, cur(hv), e, q, cur(hv), e, q))
-		tr.cur.assume(fmt.Sprintf("(=> (>= %s 1) (= (select %s (s_len %s)) (select (select %s (s_arr %s)) 0)))", elen, arr, s, cur(hv), e))
+		esel := tr.sel(comp, srt, "(s_arr "+e+")")
+		tr.cur.assume(fmt.Sprintf("(forall ((%s Int)) (! (=> (and (<= 0 %s) (< %s %s)) (= (select %s (+ (s_len %s) %s)) (select %s %s))) :pattern ((select %s %s))))",
+			q, q, q, elen, arr, s, q, esel, q, esel, q))
+		tr.cur.assume(fmt.Sprintf("(=> (>= %s 1) (= (select %s (s_len %s)) (select %s 0)))", elen, arr, s, esel))
 	}
 	q := tr.freshName("i")
-	tr.cur.assume(fmt.Sprintf("(forall ((%s Int)) (! (=> (and (<= 0 %s) (< %s (s_len %s))) (= (select %s %s) (select (select %s (s_arr %s)) %s))) :pattern ((select %s %s))))",
-		q, q, q, s, arr, q, cur(hv), s, q, arr, q))
-	tr.eng.recordWrite(tr.fn, comp)
-	tr.cur.assign(hv, fmt.Sprintf("(store %s %s %s)", cur(hv), r, arr))
+	ssel := tr.sel(comp, srt, "(s_arr "+s+")")
+	tr.cur.assume(fmt.Sprintf("(forall ((%s Int)) (! (=> (and (<= 0 %s) (< %s (s_len %s))) (= (select %s %s) (select %s %s))) :pattern ((select %s %s))))",
+		q, q, q, s, arr, q, ssel, q, arr, q))
+	tr.upd(comp, srt, r, arr)
 	tr.define(fr, res, fmt.Sprintf("(mk_slice %s (+ (s_len %s) %s))", r, s, elen))
 }
